@@ -34,6 +34,7 @@ class C13(Check):
     pid = "C13"
     title = "Initial assignments resolve once at t=0; derived parameters are state-free"
     rules = {
+        "N8": "(shared with C07) generated model functions treat assignment-defined parameters as the model does: resolved once (emitted among the parameter constants unless free), not recomputed from the state they are called with (G2, G7 of C07)",
         "N7": "(shared with C03) the resolved values are recomputed whenever the model is edited: every mutator resets the memoised cache and nothing but the cache builder writes into it (I1, I5 of C03)",
         "N1": "exactly one evaluation pass in the cache builder, over the sorter's order, on plain parameters | plain initial values | "
               "data | time = 0.0; initial conditions are read from that pass for every variable; plain values exclude, and the sorted "
@@ -47,7 +48,7 @@ class C13(Check):
               "plain parameters: re-applying it with update_parameters must not replace an initial assignment by its number",
         "N5": "a Simulator without explicit y0 starts from model.get_initial_conditions()",
     }
-    floors = {"N7": 20, "N1": 6, "N2": 6, "N3": 3, "N4": 2, "N5": 1, "N6": 2}
+    floors = {"N8": 3, "N7": 20, "N1": 6, "N2": 6, "N3": 3, "N4": 2, "N5": 1, "N6": 2}
     decided = [
         "initial assignments are evaluated once, at time zero, after everything they name (sorter order), from the declared initial state",
         "a derived quantity is a derived parameter exactly when every argument is (transitively) a parameter; such values are frozen, all others recomputed per state",
@@ -59,6 +60,7 @@ class C13(Check):
     def run(self) -> None:
         mod = self.prog.module(MOD)
         self.borrow("C03", ("I1", "I5"), "N7")
+        self.borrow("C07", ("G2", "G7"), "N8")
         cc = mod.func(CC)
         a = assigns(cc)
         body = strip_docstring(cc.body)
